@@ -34,11 +34,13 @@ pub fn run_mut(a: &Args) {
     let mut fields: Vec<(usize, usize)> = vec![(4, 1), (5, 1), (6, 1), (16, 2), (18, 2), (20, 4), (24, 8), (32, 8), (40, 8), (48, 4), (52, 2), (54, 2), (56, 2), (58, 2), (60, 2), (62, 2)];
     for i in 0..3 { let o = 0x40 + 56 * i; fields.extend([(o, 4), (o + 4, 4), (o + 8, 8), (o + 16, 8), (o + 24, 8), (o + 32, 8), (o + 40, 8), (o + 48, 8)]); }
     for i in 0..6 { let o = 0xe8 + 64 * i; fields.extend([(o, 4), (o + 4, 4), (o + 8, 8), (o + 16, 8), (o + 24, 8), (o + 32, 8), (o + 40, 4), (o + 44, 4), (o + 48, 8), (o + 56, 8)]); }
+    // the four entries of the dynamic array (tag, value): DT_SONAME, DT_STRTAB, DT_STRSZ, DT_NULL
+    for i in 0..4 { let o = 0x2bd + 16 * i; fields.extend([(o, 8), (o + 8, 8)]); }
     if a.extra.iter().any(|x| x == "sweep") {
         // every header field at every boundary value, under each strategy-forcing variant
         for variant in 0..3 {
             for (off, w) in &fields {
-                for v in VALS.iter().chain([base.len() as u64 - 1, base.len() as u64, base.len() as u64 + 1].iter()) {
+                for v in VALS.iter().chain([base.len() as u64 - 1, base.len() as u64, base.len() as u64 + 1, 0xc, 0xd, 0xe, 5, 10, 14].iter()) {   // 0xd = size of the dynamic string table; 5/10/14 = DT_STRTAB/DT_STRSZ/DT_SONAME
                     let mut b = base.clone();
                     if variant >= 1 { b[32..40].copy_from_slice(&0u64.to_le_bytes()); }
                     if variant == 2 { let o = 0xe8 + 64 * 2; b[o + 4..o + 8].copy_from_slice(&1u32.to_le_bytes()); b[o] ^= 0x55; }
